@@ -216,6 +216,56 @@ def float_lits(F, body):
     return out
 
 
+def subst_atom(rf, name, value, ctx, R):
+    """rf with the plain atom `name` replaced by `value` (rf: polynomial with constant denominator)."""
+    out = ctx.num(0)
+    d = poly.p_const_value(rf.den)
+    for m, c in rf.num.items():
+        t = ctx.num(Fr(c) / d)
+        for k, ex in m:
+            at = poly.atom_by_id(k)
+            base = value if (not at.args and at.name == name) else RatFunc.atom(at, ctx.tab)
+            t = R.mul(t, R.pow(base, ex))
+        out = R.add(out, t)
+    return out
+
+
+def check_gamut_intersection(F, rep):
+    """Ottosson's find_gamut_intersection: intersection with the triangle through the cusp, then (upper half) one Halley step per channel on
+    f(t) = channel(oklab_to_linear_srgb(L0 (1 - t) + t L1, t C1 a, t C1 b)) - 1, with f' and f'' obtained by symbolic differentiation of the crate's
+    own oklab_to_linear_srgb - the hand-expanded derivatives in the code (ldt, ldt2, r1, r2, ...) must equal them."""
+    S = Session(F)
+    ctx, R = S.ctx, S.R
+    a, b, L1, C1, L0 = (ctx.sym(n) for n in ("a", "b", "L1", "C1", "L0"))
+    cusp = Struct("ok_utils::LC", {"lightness": ctx.sym("Lc"), "chroma": ctx.sym("Cc")})
+    Lc, Cc = cusp.fields["lightness"], cusp.fields["chroma"]
+    body = F.fn("ok_utils::find_gamut_intersection")
+    t = ctx.sym("t")
+    one = ctx.num(1)
+    rgb = oklab_to_rgb(S, F, L0 * (one - t) + t * L1, t * C1 * a, t * C1 * b)
+    chans = [rgb.fields[c] - one for c in ("red", "green", "blue")]
+    d1 = [derivative(c, "t", ctx) for c in chans]
+    d2 = [derivative(c, "t", ctx) for c in d1]
+    steps = [("t0", lambda R_, e: R_.div(R_.mul(Cc, R_.sub(L0, 1)), R_.add(R_.mul(C1, R_.sub(Lc, 1)), R_.mul(Cc, R_.sub(L0, L1)))))]
+    for i, ch in enumerate("rgb"):
+        steps.append(("f_" + ch, lambda R_, e, i=i: subst_atom(chans[i], "t", e["t0"], ctx, R_)))
+        steps.append(("f1_" + ch, lambda R_, e, i=i: subst_atom(d1[i], "t", e["t0"], ctx, R_)))
+        steps.append(("f2_" + ch, lambda R_, e, i=i: subst_atom(d2[i], "t", e["t0"], ctx, R_)))
+
+    def final(R_, e):
+        lower = R_.div(R_.mul(Cc, L0), R_.add(R_.mul(C1, Lc), R_.mul(Cc, R_.sub(L0, L1))))
+        ts = []
+        for ch in "rgb":
+            f, f1, f2 = e["f_" + ch], e["f1_" + ch], e["f2_" + ch]
+            u = R_.div(f1, R_.sub(R_.mul(f1, f1), R_.mul(Fr(1, 2), f, f2)))
+            ts.append(R_.ite(R_.ge(u, 0), R_.neg(R_.mul(f, u)), 10 ** 6))
+        upper = R_.add(e["t0"], R_.min(ts[0], R_.min(ts[1], ts[2])))
+        cond = R_.le(R_.sub(R_.mul(R_.sub(L1, L0), Cc), R_.mul(R_.sub(Lc, L0), C1)), 0)
+        return R_.ite(cond, lower, upper)
+    staged_check(rep, "ALG-REF", "find_gamut_intersection", S, body, [a, b, L1, C1, L0, cusp], steps, final,
+                 sample="triangle intersection; per channel f, f', f'' (symbolic derivatives of the crate's oklab_to_linear_srgb along the ray) and one Halley step, u < 0 -> FLT_MAX")
+
+
 def check_duplicates(F, rep):
     """find_gamut_intersection carries its own copy of the Oklab -> LMS' and LMS -> RGB literals: they must be the ones oklab_to_linear_srgb uses."""
     a = {abs(x) for x in float_lits(F, F.fn("oklab::oklab_to_linear_srgb"))}
@@ -489,7 +539,7 @@ def run(F, rep, tier="quick", extra=None, only=None):
     rep.trusted += ["rustc name resolution / type check", "operator table of rules/sym.py",
                     "Ottosson, 'Okhsv and Okhsl' (2021) reference implementation and the HSLuv reference implementation (rev 4), as transcribed in rules/c15.py",
                     "axioms sqrt(x)^2 = x, cbrt(x)^3 = x"]
-    for fn in (check_max_saturation, check_small_functions, check_cusp_and_chroma_values, check_duplicates, check_okhsl_curve, check_hsluv, check_hexcone_bounds, check_hexcone_formulas):
+    for fn in (check_max_saturation, check_gamut_intersection, check_small_functions, check_cusp_and_chroma_values, check_duplicates, check_okhsl_curve, check_hsluv, check_hexcone_bounds, check_hexcone_formulas):
         try:
             fn(F, rep)
         except facts.AnchorMissing as ex:
